@@ -350,61 +350,82 @@ def rule_r8(prog, res):
     res.rule('R8', 'every request document passes the entity-declaration '
              'gate after it is parsed (libxml2 substitutes internal entities '
              'in attribute values even with resolve_entities off)')
-    x = prog.cls('spyne.protocol.xml:XmlDocument')
-    gate = x.methods.get('_reject_entity_declarations')
-    if gate is None:
-        raise AnalysisError('XmlDocument._reject_entity_declarations',
-                            'not found')
-    raises = [r for r in walk_no_defs(gate.node) if isinstance(r, ast.Raise)]
-    txt = unparse(gate.node)
-    ok = bool(raises) and 'internalDTD' in txt and ('iterentities' in txt or
-                                                   'entities' in txt)
-    res.ob('R8', gate.where, 'the gate raises for a document whose internal '
-           'subset declares entities', 'ok' if ok else 'VIOLATED')
-    if not ok:
-        res.finding('R8', 'XmlDocument._reject_entity_declarations|gate',
-                    gate.where, 'the gate no longer refuses documents that '
-                    'declare entities')
-    # the only exemption is an explicit resolve_entities=True
     from .. import guardspec
-    for r in raises:
-        atoms = guardspec.atoms_at(r, gate.node)
-        def about_the_dtd(t, depth=0):
-            """the condition speaks about the DTD / the entity list / the
-            resolve_entities option, directly or through locals bound from
-            them (a first-entity probe with a private sentinel)"""
-            if any(k in t for k in ('internalDTD', 'iterentities',
-                                    'resolve_entities')) or \
-                    'dtd' in t.lower():
-                return True
-            if depth > 3:
+
+    def about_the_dtd(t, scope, depth=0):
+        """the condition speaks about the DTD / the entity list / the
+        resolve_entities option, directly or through locals bound from
+        them (a first-entity probe with a private sentinel)"""
+        if any(k in t for k in ('internalDTD', 'iterentities',
+                                'resolve_entities')) or \
+                'dtd' in t.lower():
+            return True
+        if depth > 3:
+            return False
+        names = {y.id for y in ast.walk(ast.parse(t, mode='eval'))
+                 if isinstance(y, ast.Name)}
+        vals = []
+        for nm in names:
+            vs = [unparse(a.value) for a in walk_no_defs(scope)
+                  if isinstance(a, ast.Assign) and any(
+                      isinstance(tg, ast.Name) and tg.id == nm
+                      for tg in a.targets)]
+            if not vs:
                 return False
-            names = {y.id for y in ast.walk(ast.parse(t, mode='eval'))
-                     if isinstance(y, ast.Name)}
-            vals = []
-            for nm in names:
-                vs = [unparse(a.value) for a in walk_no_defs(gate.node)
-                      if isinstance(a, ast.Assign) and any(
-                          isinstance(tg, ast.Name) and tg.id == nm
-                          for tg in a.targets)]
-                if not vs:
-                    return False
-                vals += vs
-            return bool(vals) and all(
-                v in ('object()', 'True', 'False', 'None') or
-                about_the_dtd(v, depth + 1) for v in vals) and any(
-                about_the_dtd(v, depth + 1) for v in vals
-                if v not in ('object()', 'True', 'False', 'None'))
-        extra = [(t, p_) for t, p_ in atoms if not about_the_dtd(t)]
-        res.ob('R8', '%s:%d' % (gate.module.relpath, r.lineno),
-               'gate condition: %s' % [t for t, _ in atoms],
-               'VIOLATED' if extra else 'ok')
-        for t, p_ in extra[:1]:
-            res.finding('R8', 'XmlDocument._reject_entity_declarations|'
-                        'extra-condition', '%s:%d' % (gate.module.relpath,
-                                                      r.lineno),
-                        'the refusal additionally depends on "%s%s"' % (
-                            '' if p_ else 'not ', t))
+            vals += vs
+        return bool(vals) and all(
+            v in ('object()', 'True', 'False', 'None') or
+            about_the_dtd(v, scope, depth + 1) for v in vals) and any(
+            about_the_dtd(v, scope, depth + 1) for v in vals
+            if v not in ('object()', 'True', 'False', 'None'))
+
+    def gate_raises(g):
+        """raise statements of g that are conditioned on the internal DTD"""
+        if not any(isinstance(y, ast.Attribute) and y.attr == 'internalDTD'
+                   for y in ast.walk(g.node)):
+            return []
+        out = []
+        for r in walk_no_defs(g.node):
+            if isinstance(r, ast.Raise):
+                atoms = guardspec.atoms_at(r, g.node)
+                if any(about_the_dtd(t, g.node) for t, _ in atoms):
+                    out.append((r, atoms))
+        return out
+    # the gate is found by what it does: a function of the XML protocol
+    # modules that raises depending on the document's internal DTD
+    gates = {}
+    for m in prog.modules.values():
+        if not m.name.startswith('spyne.protocol.'):
+            continue
+        for g in m.functions.values():
+            rs = gate_raises(g)
+            if rs:
+                gates[g] = rs
+    if not gates:
+        raise AnalysisError('entity-declaration gate', 'not found')
+    for gate, rs in sorted(gates.items(), key=lambda kv: kv[0].where):
+        txt = unparse(gate.node)
+        ok = 'iterentities' in txt or 'entities' in txt
+        res.ob('R8', gate.where, 'the gate raises for a document whose '
+               'internal subset declares entities', 'ok' if ok else
+               'VIOLATED')
+        if not ok:
+            res.finding('R8', '%s|gate' % gate.qualname,
+                        gate.where, 'the gate no longer refuses documents '
+                        'that declare entities')
+        # the only exemption is an explicit resolve_entities=True
+        for r, atoms in rs:
+            extra = [(t, p_) for t, p_ in atoms
+                     if not about_the_dtd(t, gate.node)]
+            res.ob('R8', '%s:%d' % (gate.module.relpath, r.lineno),
+                   'gate condition: %s' % [t for t, _ in atoms],
+                   'VIOLATED' if extra else 'ok')
+            for t, p_ in extra[:1]:
+                res.finding('R8', '%s|extra-condition' % gate.qualname,
+                            '%s:%d' % (gate.module.relpath, r.lineno),
+                            'the refusal additionally depends on "%s%s"' % (
+                                '' if p_ else 'not ', t))
+    gate_names = {g.name for g in gates}
     n = 0
     for cfq in XML_CLASSES:
         c = prog.cls(cfq)
@@ -413,7 +434,7 @@ def rule_r8(prog, res):
             continue
         n += 1
         calls = [c_ for c_ in calls_in(f.node)
-                 if call_name(c_) == '_reject_entity_declarations']
+                 if call_name(c_) in gate_names]
         uncond = []
         for c_ in calls:
             st = c_
@@ -421,14 +442,15 @@ def rule_r8(prog, res):
                 st = st._parent
             if not guardspec.atoms_at(st, f.node):
                 uncond.append(c_)
-        ok = bool(uncond)
+        # ... or the gate's statements stand in the function itself
+        ok = bool(uncond) or f in gates
         res.ob('R8', f.where, '%s.create_in_document %s the gate' % (
             c.name, 'passes every parsed document through' if ok else
             'does not (always) call'), 'ok' if ok else 'VIOLATED')
         if not ok:
             res.finding('R8', '%s.create_in_document|gate-skipped' % c.name,
                         f.where, '%s.create_in_document does not hand every '
-                        'parsed document to _reject_entity_declarations: '
+                        'parsed document to the entity-declaration gate: '
                         'internal entities declared in a DOCTYPE are '
                         'substituted in attribute values and reach user code, '
                         'and entity reference nodes crash the readers' %
